@@ -7,6 +7,7 @@ import (
 
 	datatransfer "github.com/filecoin-project/go-data-transfer/v2"
 
+	"verif/doubles"
 	"verif/l2node"
 	"verif/mc"
 	"verif/sched"
@@ -119,4 +120,125 @@ func names(cs []datatransfer.EventCode) []string {
 func init() {
 	mc.Register("C17", "unsubscribe-racing-with-a-burst", "quick", func(x *mc.Cell) { c17Unsubscribe(x, 1) })
 	mc.Register("C17", "unsubscribe-racing-with-a-burst", "thorough", func(x *mc.Cell) { c17Unsubscribe(x, 2) })
+}
+
+// c17OpenWithSubscriber: a channel is opened with a per-transfer subscriber (optionally with a transport
+// configurer that does work on the caller's goroutine, and followed by a voucher); the caller and the
+// state-machine / notification goroutines are interleaved at lock granularity. Whatever the interleaving, the
+// per-transfer subscriber is told exactly the events of its channel that the global subscribers are told,
+// starting with Open.
+func c17OpenWithSubscriber(x *mc.Cell, pull, configurer bool, bound int) {
+	name := fmt.Sprintf("c17-open-with-subscriber/pull=%v/configurer=%v/b%d", pull, configurer, bound)
+	x.Enumerate(name, mc.EnumOpts{MaxDeviations: bound, DeviationCost: sched.Cost, MaxExecutions: 8000}, func(c *mc.Chooser) mc.Exec {
+		var ex mc.Exec
+		pv, stack := mc.Bubble(x.T, func() {
+			n, err := l2node.NewNode(l2node.Opts{Types: []string{"T"}})
+			if err != nil {
+				panic(err)
+			}
+			defer n.Stop()
+			type rec struct {
+				code datatransfer.EventCode
+				chid datatransfer.ChannelID
+			}
+			var mu sync.Mutex
+			var global, per []rec
+			n.Mgr.SubscribeToEvents(func(e datatransfer.Event, st datatransfer.ChannelState) {
+				mu.Lock()
+				global = append(global, rec{e.Code, st.ChannelID()})
+				mu.Unlock()
+			})
+			if configurer {
+				_ = n.Mgr.RegisterTransportConfigurer("T", func(chid datatransfer.ChannelID, v datatransfer.TypedVoucher) []datatransfer.TransportOption {
+					// work on the caller's goroutine between Open and the rest of the setup: a few lock operations
+					_, _ = n.Mgr.InProgressChannels(context.Background())
+					return nil
+				})
+			}
+			mc.Wait()
+			s := sched.New(lockPoints)
+			closed := false
+			defer func() {
+				if !closed {
+					s.Close()
+				}
+			}()
+			var chid datatransfer.ChannelID
+			sub := datatransfer.WithSubscriber(func(e datatransfer.Event, st datatransfer.ChannelState) {
+				mu.Lock()
+				per = append(per, rec{e.Code, st.ChannelID()})
+				mu.Unlock()
+			})
+			s.Go("opener", func() {
+				var err error
+				if pull {
+					chid, err = n.Mgr.OpenPullDataChannel(context.Background(), doubles.PeerB, doubles.Voucher("T", "v"), doubles.Cid("root"), doubles.AllSelector(), sub)
+				} else {
+					chid, err = n.Mgr.OpenPushDataChannel(context.Background(), doubles.PeerB, doubles.Voucher("T", "v"), doubles.Cid("root"), doubles.AllSelector(), sub)
+				}
+				if err != nil {
+					panic(err)
+				}
+				_ = n.Mgr.SendVoucher(context.Background(), chid, doubles.Voucher("T", "v2"))
+			})
+			stuck, capped := s.Run(c, 4000, 0, 0)
+			s.Close()
+			closed = true
+			mc.Wait()
+			rep := mc.EnumReplay(name, c)
+			if capped {
+				x.Cap(name + ": step cap")
+			}
+			if len(stuck) > 0 {
+				n2 := mc.Unblock()
+				x.Violate("C20", "open-with-subscriber;threads-stuck", fmt.Sprintf("threads %v never finished (%d parked); schedule %v", stuck, n2, s.Trace), rep)
+				x.Die()
+			}
+			mu.Lock()
+			defer mu.Unlock()
+			var own []datatransfer.EventCode
+			for _, r := range global {
+				if r.chid == chid {
+					own = append(own, r.code)
+				}
+			}
+			var got []datatransfer.EventCode
+			for _, r := range per {
+				got = append(got, r.code)
+				if r.chid != chid {
+					x.Violate("C17", "open-with-subscriber;foreign-event", fmt.Sprintf("per-transfer subscriber saw an event of %s", r.chid), rep)
+				}
+			}
+			ex.Premise = true
+			ex.Outcome = fmt.Sprint(names(own))
+			if fmt.Sprint(own) != fmt.Sprint(got) {
+				x.Violate("C17", fmt.Sprintf("open-with-subscriber;per-transfer-subscriber-differs;pull=%v;first-missing=%s", pull, firstMissing(own, got)),
+					fmt.Sprintf("channel events (global subscriber): %v\nper-transfer subscriber:           %v\nschedule %v", names(own), names(got), s.Trace), rep)
+			}
+		})
+		if pv != nil {
+			x.Violate("C17", "panic;open-with-subscriber", fmt.Sprintf("%v\n%s", pv, stack), mc.EnumReplay(name, c))
+		}
+		return ex
+	})
+}
+
+func firstMissing(want, got []datatransfer.EventCode) string {
+	for i, w := range want {
+		if i >= len(got) || got[i] != w {
+			return datatransfer.Events[w]
+		}
+	}
+	return "none"
+}
+
+func init() {
+	for _, pull := range []bool{false, true} {
+		for _, cfg := range []bool{false, true} {
+			pull, cfg := pull, cfg
+			nm := fmt.Sprintf("open-with-subscriber/pull=%v/configurer=%v", pull, cfg)
+			mc.Register("C17", nm, "quick", func(x *mc.Cell) { c17OpenWithSubscriber(x, pull, cfg, 1) })
+			mc.Register("C17", nm, "thorough", func(x *mc.Cell) { c17OpenWithSubscriber(x, pull, cfg, 3) })
+		}
+	}
 }
